@@ -59,7 +59,7 @@ def mlyCand (c : MlyCtx) (y m : Nat) : List Nat :=
       fillMlyYmdAllD cand y m c.wdMask
     else cand
   -- extend by ymd
-  if nd ≠ 0 then fillMlyYmd cand y m c.ds c.wdMask else cand
+  if nd ≠ 0 then fillMlyYmd cand y m c.ds c.r.dow c.wdMask else cand
 
 /-- `for (res = 0, tries = MLY_TRIES; res < nti && --tries; ({ … next month … })) { … }` -/
 def mlyLoop (c : MlyCtx) : Nat → Nat → Int → Nat → FillSt → FillSt
